@@ -6,7 +6,7 @@ Property theorems only.  `step`/`run` are the model of `Model/Tx.lean`; every st
 model state `s` (no bound on the number of rows, instances, columns or earlier steps) or for every history.
 
 * full strength, proved: `C07_isolation*`, `C07_commit_visible`, `C07_rollback_erases`,
-  `C07_obsolete_refuses*`, `C07_parent_reads_committed`;
+  `C07_obsolete_refuses*`, `C07_parent_reads_committed`, `C07_select_shows_view`;
 * full strength, FALSE of the code (replayed on the implementation by the harness):
   `C07_commit_no_stale_full_FALSE`, `C07_rollback_instances_full_FALSE`;
 * `_partial`: the same statements for the histories inside the decidable class `good` (Lemmas/Tx.lean).
@@ -78,6 +78,32 @@ theorem C07_parent_reads_committed (s : St) :
       refine ⟨by simp [step, opGet, St.conn, hc, St.refused, St.view, hd, hn], ?_⟩
       intro c
       simp [step, opGet, St.conn, hc, St.refused, St.view, hd, hn]
+
+/-- For every history: a `select` through the parent connection returns exactly the committed rows of the class
+    (none of the transaction's uncommitted creates, all of the rows it has deleted but not committed), and a
+    `select` through the transaction returns exactly the rows of the transaction's own view. -/
+theorem C07_select_shows_view (dc : Bool) (ops : List Op) (sd : Side) (cls : Nat)
+    (hr : (run (init dc) ops).refused sd = false) :
+    ∃ l, (step (run (init dc) ops) (.select sd cls)).2 = .rows l
+      ∧ l.map Prod.snd = (run (init dc) ops).dom.filter
+          (fun k => clsOf k == cls && ((run (init dc) ops).view sd k).isSome)
+      ∧ ∀ k, clsOf k = cls → (k ∈ l.map Prod.snd ↔ ((run (init dc) ops).view sd k).isSome = true) := by
+  have hd := run_domInv (DomInv.init dc) ops
+  generalize run (init dc) ops = s at hr hd
+  refine ⟨_, by simp only [step, opSelect, hr]; rfl, ?_, ?_⟩
+  · rw [selFold_keys]
+    simp [List.filter_filter, Bool.and_comm]
+  · intro k hk
+    rw [selFold_keys]
+    simp only [List.map_nil, List.nil_append, List.mem_filter, beq_iff_eq]
+    constructor
+    · intro h; exact h.2
+    · intro h
+      refine ⟨⟨?_, hk⟩, h⟩
+      apply hd k
+      cases sd with
+      | P => left; simpa [St.view] using h
+      | T => right; exact h
 
 /-! ## Commit -/
 
